@@ -333,7 +333,7 @@ EXTRA = {
     "C17": ("; J2O_Vocab IntVocabSound: members of _INTEGER_VALUE_PRESERVING_OPS (facts) between a bounded Range and a narrowing cast pair with run-time operands carrying out-of-range values", ""),
     "C18": ("; J2O_Unwind on _temporary_x64 (flag restored on every exit path of allclose)", ""),
     "C19": ("; re-spellings of recorded calls first, positional numbers moved to their keyword with another value; substitutes whose source changed since the recorded baseline always executed in the quick tier", ""),
-    "C04": ("; J2O_SymShape: TLC model of the shape algebra of 94 shape-changing operations under named dimensions (laws for every binding, 2 deviations rejected), every case exported with symbols and run at 8 bindings incl. size 1, B = N, B != N, 64", ""),
+    "C04": ("; J2O_SymShape: TLC model of the shape algebra of 133 shape-changing operations under named dimensions (laws for every binding, 2 deviations rejected), every case exported with symbols and run at 8 bindings incl. size 1, B = N, B != N, 64", ""),
     "C08": ("; J2O_LoopWiring: TLC model of the order of the Loop's pass-through results (2 deviations rejected) replayed as 36 real while_loops whose cond / body close over tensors of distinct shapes; Elu reshape chains", ""),
     "C10": ("; J2O_BroadcastBatch (n-ary elementwise substitutes under vmap with batch positions, unmapped operands and differing per-example ranks) replayed over 14 substitutes", ""),
 }
